@@ -77,4 +77,7 @@ mod error;
 mod fft;
 mod proof_system;
 
+#[cfg(all(plonk_verif, feature = "alloc"))]
+pub mod verif;
+
 pub mod prelude;
